@@ -73,8 +73,9 @@ func genC02(t *rapid.T) C02Case {
 	if wide && d > 3 {
 		d = 3
 	}
+	rawKind := rapid.IntRange(0, 7).Draw(t, "rawkind")
 	g := &G{t: t, GenCfg: GenCfg{Depth: d, MaxArity: maxA,
-		Failing: rapid.Bool().Draw(t, "failing"),
+		Failing: rapid.Bool().Draw(t, "failing") && rawKind != 0, // (raw bindings: the only errors are the ones the raw values cause)
 		Custom:  true, Consts: true, Aliases: true, BoolW: 6,
 	}}
 	ty := rootTy(t)
@@ -84,7 +85,7 @@ func genC02(t *rapid.T) C02Case {
 	u.Stateless = drawStateless(t)
 	operatorLikeNames(t, tree, u)
 	c := C02Case{U: *u}
-	switch rapid.IntRange(0, 7).Draw(t, "rawkind") {
+	switch rawKind {
 	case 0:
 		c.RawVars = true
 	case 1:
@@ -182,6 +183,11 @@ func checkC02(c C02Case, r *Rec) *Violation {
 
 	for mask := 0; mask < 16; mask++ {
 		o := runs[mask].Out
+		// (a raw-typed constant: what an operator makes of it is not the reference's business - only
+		// that every configuration makes the same of it, rule (a))
+		if c.RawConst {
+			eagerOK, rerr = false, m.ErrCustom
+		}
 		// (b) everything any order could reach succeeds: every configuration returns that value
 		if eagerOK && !(o.Err == nil && m.EqualVal(o.Val, ev)) {
 			return Violf("C02: every reachable operand succeeds, yet configuration %s does not return the value\n%s\nengine=%v\nexpected=%s", maskName(mask), runs[mask].describe(src, u), o, refString(ev, nil))
@@ -211,11 +217,13 @@ func checkC02(c C02Case, r *Rec) *Violation {
 			if outs[mask].Panic != nil {
 				return Violf("C02: Eval panics with un-normalised integer bindings\n%s\n%v", runs[mask].describe(src, u), outs[mask])
 			}
-			// ... namely what the reference makes of them on the configuration's own dump: a foreign
-			// value, equal to nothing but itself and rejected by every other operator
-			rr := &m.Env{Vars: rawBound(u.Bound()), Fail: u.Fail(), Custom: customModel(), Fast: mask&MaskFast != 0}
-			if rrv, rrerr := rr.Eval(runs[mask].DTree); rrerr != m.ErrOptionalFetch && !Agrees(outs[mask], rrv, rrerr) {
-				return Violf("C02: with un-normalised integer bindings (Go int / int32 handed over by the fetcher) Eval disagrees with the reference on the program Dump shows\n%s\nraw binding=%v\nengine=%v\nreference(on dump)=%s", runs[mask].describe(src, u), rawBound(u.Bound()), outs[mask], refString(rrv, rrerr))
+			// ... in particular FastEvaluation, which only changes how two-leaf operators get their
+			// operands, changes nothing at all: same value, or an error on both sides (what an operator
+			// makes of a foreign value is the engine's business - that it is the same on every path is C02's)
+			if mask&MaskFast != 0 && mask&MaskReorder == 0 { // (with Reordering the two programs may order their operands differently)
+				if twin := outs[mask&^MaskFast]; !SameOutcomeLoose(outs[mask], twin) {
+					return Violf("C02: with un-normalised integer bindings (Go int / int32 handed over by the fetcher) switching FastEvaluation on changes the outcome\nsrc=%s\nraw binding=%v\n%s -> %v\n%s\n%s -> %v\n%s", src, rawBound(u.Bound()), maskName(mask&^MaskFast), twin, runs[mask&^MaskFast].Dump, maskName(mask), outs[mask], runs[mask].Dump)
+				}
 			}
 			for m2 := 0; m2 < mask; m2++ {
 				if outs[mask].Err == nil && outs[m2].Err == nil && !m.EqualVal(outs[mask].Val, outs[m2].Val) {
